@@ -953,16 +953,20 @@ class UnlockSuite(Suite):
         if before != model_attr0:
             fs.append(Finding("impl_vs_model", f"VMX.parse: implementation and model dictionaries differ: {_dict_diff(before, model_attr0)}",
                               "vmx:parse:dict"))
-        if tr[0] == "TNeed":
+        need = tr[0] == "TNeed"
+        if need:
             fs.append(Finding("coq_error", f"oracle table has no answer for a call of the model: {str(tr[1])[:200]}"))
-            return fs
-        _, mres, trace = tr
+            mres, trace = None, []
+        else:
+            _, mres, trace = tr
         table = [dec_call(j) for j, _ in case["oracle"]]
         model_calls = [enc_call(table[i]) for i in trace]
         if mres == "XFuel":
             fs.append(Finding("model_vs_spec", "model ran out of fuel", sig0 + ":fuel"))
-            return fs
-        if isinstance(mres, tuple) and mres[0] == "XOk":
+            need = True
+        if need:
+            m_out, m_after = None, None
+        elif isinstance(mres, tuple) and mres[0] == "XOk":
             m_out, m_after = "ok", dict_of(mres[1])
         else:
             m_out, m_after = EXC_FAMILY[mres[1]], model_attr0
@@ -989,7 +993,9 @@ class UnlockSuite(Suite):
                 if dict(after) != want:
                     fs.append(Finding("impl_vs_spec", f"{label}: unlocked dictionary differs from the writer's entries: "
                                       f"{_dict_diff(after, list(want.items()))}", "vmx:unlock:roundtrip:entries"))
-            if m_out != "ok":
+            if need:
+                pass
+            elif m_out != "ok":
                 fs.append(Finding("model_vs_spec", f"{label}: model raises {m_out} on a sealed file", sig0 + ":mvs"))
             elif m_after != spec_after:
                 fs.append(Finding("model_vs_spec", f"{label}: model dictionary differs from the specification",
@@ -1004,6 +1010,8 @@ class UnlockSuite(Suite):
                                   f"configuration changed: {_dict_diff(after, before)}", f"vmx:unlock:{kind}:partial-update"))
             if m_out == "ok":
                 fs.append(Finding("model_vs_spec", f"{label}: model accepts", sig0 + ":mvs-accept"))
+        if need:
+            return fs
         # ---- implementation vs model
         if i_out != m_out:
             fs.append(Finding("impl_vs_model", f"{label}: implementation {i_out} "
